@@ -4,6 +4,7 @@ import glob
 import json
 import os
 import struct
+from fractions import Fraction
 
 import numpy as np
 
@@ -13,6 +14,9 @@ from .common import Disagreement, drive, q, qs, parse_qs, ROOT
 from .c05 import fmt_fits
 
 PROP_MODULE = 'PbVerif.Props.C19'
+# increasing affine maps t -> a*t + b of the exact model self-checks (scales over 60 decades, huge offsets)
+AFFINE_MAPS = [(Fraction(1, 10 ** 30), Fraction(0)), (Fraction(1), Fraction(1700000000)), (Fraction(10 ** 30), Fraction(-7, 3)),
+               (Fraction(3, 7), Fraction(-10 ** 12)), (Fraction(1, 2 ** 40), Fraction(10 ** 9))]
 RULE = ('cases = (x kind, x-axis magnitude kind (methods.X_MAGNITUDES with dyadic factors: x * 2^-100 ... 2^99, huge offsets with a narrow '
         'range, negative ranges - exact images of the dyadic reference axis, delta scaled alike, so every float comparison of the '
         'selection stays exact), N, total_points, poly_order, delta, weighting options, max_iter); the fit/window/skip selection and the '
@@ -394,6 +398,14 @@ def correspond(ctx):
         lines.append(f'c19.fits {tp} {q(delta)} {qs(x)}')
         exp.append(fmt_fits(w, f, s))
         metas.append(('fits', meta))
+        # MODEL self-check, exact in Q: the selection for a*x + b with delta scaled by a is the selection for x
+        # (theorem determineFits_affine_invariant; guards N >= 1, total_points >= 1)
+        if tp >= 1 and n <= 60:
+            fa, fb = AFFINE_MAPS[len(lines) % len(AFFINE_MAPS)]
+            lines.append(f'c19.fits {tp} {q(fa * Fraction(float(delta)))} {qs([fa * Fraction(float(v)) + fb for v in x])}')
+            exp.append(None)
+            metas.append(('fits_aff', dict(meta, a=str(fa), b=str(fb))))
+            ctx.count('affine-self-check:fits')
         # (2) skip filling vs the model
         if len(s):
             b = rng.integers(-8, 9, n).astype(float)
@@ -402,6 +414,12 @@ def correspond(ctx):
             lines.append(f'c19.fill {qs(x)} {qs(b)} ' + ';'.join(f'{int(a)},{int(c)}' for a, c in s))
             exp.append(b2)
             metas.append(('fill', meta))
+            if n <= 60 and all(x[int(c) - 1] != x[int(a)] for a, c in s):
+                fa, fb = AFFINE_MAPS[len(lines) % len(AFFINE_MAPS)]
+                lines.append(f'c19.fill {qs([fa * Fraction(float(v)) + fb for v in x])} {qs(b)} ' + ';'.join(f'{int(a)},{int(c)}' for a, c in s))
+                exp.append(None)
+                metas.append(('fill_aff', dict(meta, a=str(fa), b=str(fb))))
+                ctx.count('affine-self-check:fill')
         # (3) real loess: memory strategies, compiled vs python kernels, chords, delta=0
         kw = dict(total_points=tp, poly_order=po, delta=delta, return_coef=True, tol=1e-3, **{k: (np.array(v) if k == 'weights' else v) for k, v in opts.items()})
         ctx.count('weights:' + ('user' if 'weights' in opts else 'none'))
@@ -482,8 +500,16 @@ def correspond(ctx):
             ctx.count('reproduce:singular')
     res = drive(lines)
     ctx.traces += len(lines)
+    last = {}
     for ln, r, e, (kind, meta) in zip(lines, res, exp, metas):
-        if kind == 'fits':
+        if kind in ('fits', 'fill'):
+            last[kind] = r
+        if kind in ('fits_aff', 'fill_aff'):
+            if r != last[kind[:4]]:
+                dis.append(Disagreement('c19.model', 'model:affine:' + kind[:4], f'MODEL self-check: {kind[:4]} for a*x+b (a={meta["a"]}, b={meta["b"]}, delta scaled '
+                                        f'by a) differs from that for x (theorem {"determineFits" if kind[:4] == "fits" else "fillSkips"}_affine_invariant '
+                                        f'violated?): {r[:80]} vs {last[kind[:4]][:80]}', dict(meta, line=ln[:60]), False))
+        elif kind == 'fits':
             if r != e:
                 dis.append(Disagreement('c19.model', 'model:fits', f'_determine_fits differs from the Lean model: model={r[:100]} real={e[:100]}',
                                         dict(meta, line=ln[:60]), False))
